@@ -73,10 +73,12 @@ def deep_equal(seq1: Iterable[Any],
                 return True
             elif isinstance(value1, XPathMap):
                 assert isinstance(value2, XPathMap)
-                return value1 == value2
+                if value1 != value2:
+                    return False
             elif isinstance(value1, XPathArray):
                 assert isinstance(value2, XPathArray)
-                return value1 == value2
+                if value1 != value2:
+                    return False
             elif isinstance(value1, XPathNode):
                 assert isinstance(value2, XPathNode)
                 if value1.__class__ != value2.__class__:
